@@ -73,13 +73,13 @@ instance (st : HeapState) : Decidable (NoDoubleFree st) := by unfold NoDoubleFre
 instance (st : HeapState) : Decidable (NoLeak st) := by unfold NoLeak; infer_instance
 
 /-- `(name, isEffect)` of the IL declarations of a body, in order. -/
-def ilDecls (items : List Item) : List (String × Bool) :=
+def heapDecls (items : List Item) : List (String × Bool) :=
   items.filterMap (fun it => match it with
     | .decl ty x _ => (ilKind ty).map (fun k => (x, k))
     | _ => none)
 
 /-- The declared IL names are pairwise distinct. -/
-def ilNamesDistinct (items : List Item) : Prop := ((ilDecls items).map Prod.fst).Nodup
+def ilNamesDistinct (items : List Item) : Prop := ((heapDecls items).map Prod.fst).Nodup
 
 instance (items : List Item) : Decidable (ilNamesDistinct items) := by unfold ilNamesDistinct; infer_instance
 
